@@ -17,7 +17,7 @@
 EXTENDS ActsProps, Json, IOUtils
 
 Log == ndJsonDeserialize(IOEnv.TRACE)
-ModelLines == LET L == Log IN SelectSeq(L, LAMBDA r : r.ev = "model")
+ModelLines == LET L == Log IN SelectSeq(L, LAMBDA r : r.ev \in {"model", "submodel"})
 TraceModels == LET M == ModelLines IN [j \in DOMAIN M |-> M[j].model]
 TraceInputSets == LET M == ModelLines IN [j \in DOMAIN M |-> {M[j].inputs}]
 
@@ -31,18 +31,22 @@ Count(seq, Test(_)) == Len(SelectSeq(seq, Test))
 SatAdd(n, k) == IF n + k >= 2 THEN 2 ELSE n + k
 
 (* a new task record from the dump, the step's probes and the previous record *)
-LoadTask(pid, r, x, old, isNew, oldts) ==
+LoadTask(pid, mi, r, x, old, isNew, oldts) ==
   LET k == x.k
       cre == Count(r.gens, LAMBDA g : g.what = "message" /\ g.pid = pid /\ g.t = k /\ g.state = "created")
       trm == Count(r.gens, LAMBDA g : g.what = "message" /\ g.pid = pid /\ g.t = k /\ IsDone(g.state))
-      okact == r.a = "Act" /\ r.res = "ok" /\ r.pid = pid /\ r.t = k /\ r.kind \in TerminalKinds
+      okact == /\ \/ r.a = "Act" /\ r.res = "ok" /\ r.pid = pid /\ r.t = k /\ r.kind \in TerminalKinds
+                  \* (a burst of concurrent client calls in an ungated run)
+                  \/ r.a = "Burst" /\ \E i \in DOMAIN r.acts : /\ r.acts[i].pid = pid /\ r.acts[i].t = k
+                                                                /\ r.acts[i].res = "ok"
                /\ IsDone(x.st)      \* (an error taken by the act's own catch re-opens it)
       errw == SelectSeq(r.ws, LAMBDA w : w.kind # "proc" /\ w.pid = pid /\ w.t = k /\ w.new = "error")
       revs == Count(r.ws, LAMBDA w : w.kind # "proc" /\ w.pid = pid /\ w.t = k
                                       /\ w.old = "error" /\ w.new = "running")
       revived == revs > 0
       code == IF errw # <<>> THEN errw[Len(errw)].err ELSE IF isNew THEN NIL ELSE old.err
-      cs == Trees[sc].n[k[1]].catches
+      cs == Trees[mi].n[k[1]].catches
+      retok == r.a = "Return" /\ r.res = "ok" /\ r.pid = pid /\ r.t = k
       first == { i \in DOMAIN cs : (cs[i] = NIL \/ cs[i] = code)
                                    /\ \A j \in 1..(i - 1) : ~(cs[j] = NIL \/ cs[j] = code) }
   IN [st |-> x.st, prev |-> x.prev, seq |-> x.seq, err |-> x.err, emitOff |-> x.emitOff,
@@ -59,7 +63,10 @@ LoadTask(pid, r, x, old, isNew, oldts) ==
       caughtBy |-> IF revived THEN (IF first = {} THEN 0 ELSE CHOOSE i \in first : TRUE)
                    ELSE IF isNew THEN 0 ELSE old.caughtBy,
       revivals |-> SatAdd(IF isNew THEN 0 ELSE old.revivals, revs),
-      redo |-> IF isNew THEN (r.a = "Act" /\ r.kind \in {"back", "cancel"}) ELSE old.redo]
+      redo |-> IF isNew THEN (r.a = "Act" /\ r.kind \in {"back", "cancel"}) ELSE old.redo,
+      noauto |-> IF "noauto" \in DOMAIN x THEN x.noauto ELSE FALSE,
+      data |-> IF "data" \in DOMAIN x THEN x.data ELSE "",
+      retn |-> SatAdd(IF isNew THEN 0 ELSE old.retn, IF retok THEN 1 ELSE 0)]
 
 (* writes of this step that the lifecycle forbids; error -> running is legal  *)
 (* once per task (the catch revival; that a catch matched is C06's business)  *)
@@ -104,12 +111,28 @@ LoadProc(pid, r, oldp) ==
            errs == Count(r.gens, LAMBDA g : g.what = "error" /\ g.pid = pid)
            cntc(k) == Count(r.gens, LAMBDA g : g.what = "message" /\ g.pid = pid /\ g.t = k /\ g.state = "created")
            cntt(k) == Count(r.gens, LAMBDA g : g.what = "message" /\ g.pid = pid /\ g.t = k /\ IsDone(g.state))
+           mks == SelectSeq(r.mks, LAMBDA m : m.pid = pid)
+           newkeys == IF oldp.st = "absent" THEN {} ELSE { mks[i].t : i \in DOMAIN mks } \ DOMAIN oldp.ts
+           mk(k) == mks[CHOOSE i \in DOMAIN mks : mks[i].t = k]
        IN
        [oldp EXCEPT
           !.ts = IF oldp.st = "absent" THEN <<>>
-                 ELSE [k \in DOMAIN oldp.ts |->
+                 ELSE [k \in DOMAIN oldp.ts \cup newkeys |->
+                         IF k \notin DOMAIN oldp.ts
+                         \* a task this step created (creation probe): it is in no dump yet
+                         THEN [NewTask(mk(k).prev, 1000 + mk(k).seq) EXCEPT
+                                 !.st = IF lastw(k) = "-" THEN "none" ELSE lastw(k), !.data = "?",
+                                 !.mcre = SatAdd(0, cntc(k)), !.mterm = SatAdd(0, cntt(k)),
+                                 !.born = r.post.now]
+                         ELSE
                          [oldp.ts[k] EXCEPT !.st = IF lastw(k) = "-" THEN @ ELSE lastw(k),
-                                            !.mcre = SatAdd(@, cntc(k)), !.mterm = SatAdd(@, cntt(k))]],
+                                            !.data = "?",
+                                            !.mcre = SatAdd(@, cntc(k)), !.mterm = SatAdd(@, cntt(k)),
+                                            !.retn = SatAdd(@, IF r.a = "Return" /\ r.res = "ok" /\ r.pid = pid /\ r.t = k
+                                                               THEN 1 ELSE 0),
+                                            !.okterm = SatAdd(@, IF r.a = "Act" /\ r.res = "ok" /\ r.pid = pid /\ r.t = k
+                                                                    /\ r.kind \in TerminalKinds /\ IsDone(lastw(k))
+                                                                 THEN 1 ELSE 0)]],
           !.ps = IF pws = <<>> THEN @ ELSE pws[Len(pws)].new,
           !.ev = IF oldp.st = "absent" THEN [start |-> 0, term |-> 0, kinds |-> {}, first |-> NIL]
                  ELSE [start |-> SatAdd(@.start, starts), term |-> SatAdd(@.term, comps + errs),
@@ -118,7 +141,7 @@ LoadProc(pid, r, oldp) ==
                        first |-> IF @.first # NIL THEN @.first
                                  ELSE IF comps + errs = 0 THEN NIL
                                  ELSE SelectSeq(r.gens, LAMBDA g : g.pid = pid /\ g.what \in {"complete", "error"})[1].what],
-          !.dirty = {},
+          !.dirty = {}, !.cached = FALSE,
           !.pure = @ /\ ~(r.a = "Act" /\ r.pid = pid /\ r.res = "ok" /\ r.kind # "complete"),
           !.gone = IF oldp.st = "absent" THEN FALSE ELSE ~r.post.rows[pid].proc.exists /\ oldp.ts # <<>>,
                     !.rowsLeft = [proc |-> r.post.rows[pid].proc.exists, tasks |-> Len(r.post.rows[pid].tasks),
@@ -130,7 +153,7 @@ LoadProc(pid, r, oldp) ==
            comps == Count(r.gens, LAMBDA g : g.what = "complete" /\ g.pid = pid)
            errs == Count(r.gens, LAMBDA g : g.what = "error" /\ g.pid = pid)
        IN [oldp EXCEPT
-             !.ts = [k \in keys |-> LoadTask(pid, r, rec(k),
+             !.ts = [k \in keys |-> LoadTask(pid, oldp.mi, r, rec(k),
                                              IF k \in DOMAIN oldts THEN oldts[k] ELSE NewTask(NoKey, 0),
                                              k \notin DOMAIN oldts, oldts)],
              !.ps = lp.ps, !.perr = lp.perr,
@@ -142,26 +165,25 @@ LoadProc(pid, r, oldp) ==
                                ELSE LET te == SelectSeq(r.gens, LAMBDA g : g.pid = pid /\ g.what \in {"complete", "error"})
                                     IN IF te = <<>> THEN NIL ELSE te[1].what],
              !.viol = @ \cup BadWrites(pid, r, oldp),
+             \* the calling act and the call's inputs of a child process: its root task holds them
+             \* once it has run
+             !.parent = IF "link" \in DOMAIN lp /\ lp.link.pid # NIL THEN lp.link ELSE @,
+             !.inp = IF "link" \in DOMAIN lp /\ lp.link.pid # NIL THEN lp.inp ELSE @,
              !.dirty = ImageDiff(pid, r),
-             !.gone = FALSE,
+             !.gone = FALSE, !.cached = TRUE,
              !.rowsLeft = [proc |-> r.post.rows[pid].proc.exists, tasks |-> Len(r.post.rows[pid].tasks),
                            open |-> Len(SelectSeq(r.post.rows[pid].tasks, LAMBDA x : ~IsDone(x.st)))],
              !.pure = @ /\ ~(r.a = "Act" /\ r.pid = pid /\ r.res = "ok" /\ r.kind # "complete")]
-
-FreshProc(mi, inp) ==
-  [st |-> "started", mi |-> mi, inp |-> inp, ts |-> <<>>, ps |-> "none", perr |-> NIL,
-   nseq |-> 1, ev |-> [start |-> 0, term |-> 0, kinds |-> {}, first |-> NIL], viol |-> {}, pure |-> TRUE,
-   dirty |-> {}, gone |-> FALSE, cached |-> TRUE, rowsLeft |-> [proc |-> FALSE, tasks |-> 0, open |-> 0]]
 
 KeyOrNo(r) == IF "t" \in DOMAIN r THEN r.t ELSE NoKey
 
 Label(r) ==
   IF r.a = "Advance" THEN [StepLabel("Advance", NIL, <<NIL, 0>>) EXCEPT !.opt = [d |-> r.d]] ELSE
   [a |-> r.a, pid |-> r.pid, t |-> KeyOrNo(r),
-   kind |-> IF r.a = "Act" THEN r.kind ELSE NIL,
-   st |-> IF r.a = "Act" /\ procs[r.pid].st # "absent" /\ r.t \in DOMAIN procs[r.pid].ts
-          THEN procs[r.pid].ts[r.t].st ELSE IF r.a = "Act" THEN "absent" ELSE NIL,
-   opt |-> IF r.a = "Act" THEN [ecode |-> r.opts.ecode, to |-> r.opts.to] ELSE NoOpt]
+   kind |-> IF r.a \in {"Act", "Return"} THEN r.kind ELSE NIL,
+   st |-> IF r.a \in {"Act", "Return"} /\ procs[r.pid].st # "absent" /\ r.t \in DOMAIN procs[r.pid].ts
+          THEN procs[r.pid].ts[r.t].st ELSE IF r.a \in {"Act", "Return"} THEN "absent" ELSE NIL,
+   opt |-> IF r.a \in {"Act", "Return"} THEN [ecode |-> r.opts.ecode, to |-> r.opts.to] ELSE NoOpt]
 
 Str(v) == ToString(v)
 Line(kind, v, r) ==
@@ -180,6 +202,10 @@ ObsModel ==
   /\ lastOut' = <<>> /\ lastRes' = "-" /\ lastAct' = NoAct
   /\ now' = 0
 
+ObsSub ==        \* another model of the bundle; the main one (which resets the scenario) follows
+  /\ l <= Len(Log) /\ Log[l].ev = "submodel"
+  /\ l' = l + 1 /\ sc' = sc + 1 /\ UNCHANGED <<vars, seen>>
+
 ObsSkip ==
   /\ l <= Len(Log) /\ Log[l].ev \in {"end", "note"}
   /\ l' = l + 1 /\ UNCHANGED <<vars, sc, seen>>
@@ -190,30 +216,54 @@ ObsStep ==
   /\ LET r == Log[l] IN
      /\ procs' = [pid \in Pids |->
                     IF pid \notin DOMAIN r.post.procs THEN procs[pid]
-                    ELSE LoadProc(pid, r,
-                                  IF r.a = "StartCall" /\ r.pid = pid /\ r.res = "ok"
-                                  THEN FreshProc(sc, r.inputs) ELSE procs[pid])]
+                    ELSE IF r.a = "StartCall" /\ r.pid = pid /\ r.res = "ok"
+                    THEN LoadProc(pid, r, FreshProc(sc - (IF "mo" \in DOMAIN r THEN r.mo ELSE 0), r.inputs, NoParent))
+                    ELSE IF r.a = "Burst" /\ \E i \in DOMAIN r.starts : r.starts[i].pid = pid /\ r.starts[i].res = "ok"
+                    THEN LET s0 == r.starts[CHOOSE i \in DOMAIN r.starts : r.starts[i].pid = pid /\ r.starts[i].res = "ok"]
+                         IN LoadProc(pid, r, FreshProc(sc - s0.mo, s0.inputs, NoParent))
+                    \* a child process is first seen when it is launched: model, inputs and the
+                    \* calling act as its root task holds them
+                    ELSE IF procs[pid].st = "absent" \/ (procs[pid].gone /\ r.post.procs[pid].cached)
+                    THEN IF r.post.procs[pid].cached /\ r.post.procs[pid].tasks # <<>>
+                         THEN LoadProc(pid, r, FreshProc(FindModel(sc, r.post.procs[pid].mid),
+                                                         r.post.procs[pid].inp, r.post.procs[pid].link))
+                         ELSE procs[pid]
+                    ELSE LoadProc(pid, r, procs[pid])]
      /\ queue' = UNION { { <<pid, r.post.procs[pid].q[i]>> : i \in DOMAIN r.post.procs[pid].q }
-                         : pid \in { q \in DOMAIN r.post.procs : r.post.procs[q].cached } }
-     /\ spawn' = { [kind |-> r.post.jobs[i].kind, pid |-> r.post.jobs[i].pid] : i \in DOMAIN r.post.jobs }
+                         : pid \in { q \in DOMAIN r.post.procs : "q" \in DOMAIN r.post.procs[q] } }
+     /\ spawn' = { IF r.post.jobs[i].kind = "return"
+                    THEN [kind |-> "return", pid |-> r.post.jobs[i].pid, t |-> r.post.jobs[i].t]
+                    ELSE [kind |-> r.post.jobs[i].kind, pid |-> r.post.jobs[i].pid] : i \in DOMAIN r.post.jobs }
      /\ budget' = budget
      /\ now' = r.post.now
      /\ lastOut' = [i \in DOMAIN r.gens |->
                       [what |-> r.gens[i].what, pid |-> r.gens[i].pid, t |-> r.gens[i].t,
                        nid |-> r.gens[i].nid, type |-> r.gens[i].type, state |-> r.gens[i].state]]
-     /\ lastRes' = IF r.a = "Act" THEN (IF r.res = "ok" THEN "ok" ELSE "err") ELSE "-"
+     /\ lastRes' = IF r.a \in {"Act", "Return", "StartCall"} THEN (IF r.res = "ok" THEN "ok" ELSE "err") ELSE "-"
      /\ lastAct' = Label(r)
-     /\ LET noop == (IF C05_RejectedIsNoopStep THEN {}
+     /\ LET \* (on observed states a rejected action may still reload an evicted process: what
+            \* must not change is what the process IS, not the bookkeeping of this module)
+            ObsRejectedIsNoop ==
+              (lastRes' = "err" /\ lastAct'.a = "Act" /\ lastAct'.kind \in TerminalKinds)
+                 => /\ \A q \in Pids : SameImage(procs'[q], procs[q])
+                    /\ queue' = queue /\ spawn' = spawn /\ lastOut' = <<>>
+            noop == (IF ObsRejectedIsNoop THEN {}
                      ELSE { V("C05_RejectedIsNoop", r.pid, KeyOrNo(r), {}) })
                     \cup (IF C19_TickKeepsStatesStep THEN {}
                           ELSE { V("C19_TickKeepsStates", "p1", NoKey, {}) })
+                    \cup (IF C15_ReturnMatchesStep THEN {}
+                          ELSE { V("C15_ReturnMatches", r.pid, KeyOrNo(r), {}) })
+                    \cup (IF C13_OnlyOwnStep THEN {}
+                          ELSE { V("C13_OnlyOwn", r.pid, KeyOrNo(r), {}) })
+                    \cup (IF C13_DupRefusedStep THEN {}
+                          ELSE { V("C13_DupRefused", r.pid, NoKey, {}) })
             \* a re-executed prefix (explore) was judged when it was first recorded
             new == IF r.pre THEN {} ELSE (AllV' \cup noop) \ seen
         IN /\ Report(new, r)
            /\ seen' = seen \cup new
 
 ObsInit == Init /\ l = 1 /\ sc = 0 /\ seen = {}
-ObsNext == ObsModel \/ ObsSkip \/ ObsStep
+ObsNext == ObsModel \/ ObsSub \/ ObsSkip \/ ObsStep
 ObsSpec == ObsInit /\ [][ObsNext]_ovars
 
 ObsDone ==
